@@ -1216,13 +1216,18 @@ class VectorImpl : public VectorDestr<T, Alloc, SizeType, WithInlineElements, Gr
   void assign(size_type count, const_reference v) {
     if (this->size() < count) {
       const_reference newV = this->adjustCapacity(count, v);
-      fill(this->begin(), this->size(), count, newV);
+      SizeType oldSize = this->size();
+      // construct the new elements and account for them before assigning to the existing ones, so that none of them
+      // is leaked if an assignment throws
+      std::uninitialized_fill_n(end(), count - oldSize, newV);
+      this->setSize(count);
+      std::fill_n(this->begin(), oldSize, newV);
     } else {
       // copy to already existing elements and destroy remaining ones
       std::fill_n(this->begin(), count, v);
       amc::destroy_n(this->begin() + count, this->size() - count);
+      this->setSize(count);
     }
-    this->setSize(count);
   }
 
   /// Replaces the contents of the container.
